@@ -4,8 +4,8 @@
 # The build phase of each check holds /tmp/repo.lock so that tools/seedrun.sh (which patches
 # /repo temporarily) cannot interfere.
 seed=$1; budget=$2; shift 2
-out=/verif/work/thorough; mkdir -p $out/evidence
-cd /verif
+cd "$(dirname "$(readlink -f "$0")")/.." || exit 2   # (/verif, or a vp-run snapshot of it)
+out=$PWD/work/thorough; mkdir -p $out/evidence
 for id in "$@"; do
   exec 9>/tmp/repo.lock
   flock 9
